@@ -405,7 +405,8 @@ def call_impl(fn, *args, limit=10, **kw):
     """Run the implementation; return ('ok', value) or ('exc', class name)."""
     import warnings
     old = signal.signal(signal.SIGALRM, _alarm)
-    signal.alarm(limit)
+    prev = signal.alarm(limit)          # an enclosing guard_run alarm, if any, is re-armed in the finally clause
+    t_in = time.time()
     try:
         with warnings.catch_warnings():
             warnings.simplefilter('ignore')
@@ -419,6 +420,26 @@ def call_impl(fn, *args, limit=10, **kw):
         return ('exc', 'RecursionError')
     except Exception as e:  # noqa
         return ('exc', type(e).__name__)
+    finally:
+        signal.alarm(0)
+        signal.signal(signal.SIGALRM, old)
+        if prev:
+            signal.alarm(max(1, int(prev - (time.time() - t_in))))
+
+
+def guard_run(unit, case, limit=40):
+    """unit.run(case) under a wall-clock limit: a unit that calls the implementation without call_impl must not hang the check when
+    a change makes the implementation loop forever. A timed-out case is recorded as the outcome ['exc', 'Timeout'] (a mismatch for
+    the model, which never times out); more than MAX_TIMEOUTS of them abort the unit (TooManyTimeouts -> the unit is reported broken)."""
+    old = signal.signal(signal.SIGALRM, _alarm)
+    signal.alarm(limit)
+    try:
+        return unit.run(case)
+    except Timeout:
+        _timeouts[0] += 1
+        if _timeouts[0] > MAX_TIMEOUTS:
+            raise TooManyTimeouts('%d cases of unit %s exceeded %d s' % (_timeouts[0], unit.name, limit))
+        return ['exc', 'Timeout']
     finally:
         signal.alarm(0)
         signal.signal(signal.SIGALRM, old)
@@ -592,7 +613,7 @@ def run_unit(unit, tier, escalate=False):
     cases += list(unit.gen(rng, n))
     pairs = []
     for c in cases:
-        pairs.append((c, unit.run(c)))
+        pairs.append((c, guard_run(unit, c)))
     bad, errs = evaluate_pairs(unit, pairs)
     seen = set()
     nontriv = 0
@@ -627,7 +648,7 @@ def shrink_mismatch(unit, case, out, rounds=6):
         cands = list(unit.shrink(case))[:200]
         if not cands:
             break
-        pairs = [(c, unit.run(c)) for c in cands]
+        pairs = [(c, guard_run(unit, c)) for c in cands]
         bad, errs = evaluate_pairs(unit, pairs)
         if errs or not bad:
             break
